@@ -29,7 +29,7 @@ ASSUMPTIONS = [
 
 HUGE = 1e18
 
-INPUTS_QUICK = ["tomorrow 5pm", "1", "1 1", "1 1 1", "monday 9-5", "gargelbabel", "next friday at 8 #x", "tomorrow 8 yesterday Sep 9 9"]
+INPUTS_QUICK = ["tomorrow 5pm", "1", "1 1", "1 1 1", "monday 9-5", "gargelbabel", "next friday at 8 #x", "tomorrow 8 yesterday Sep 9 9", "1 x 1 x 1", "1 x 1 x 1 x 1 x 1"]
 INPUTS_THOROUGH = INPUTS_QUICK + [
     "1 1 1 1",
     "1 1 1 1 1",
@@ -130,15 +130,45 @@ class Env:
 
         return Counting()
 
+    def _patch_model(self, m):
+        """count the rows handed to the shipped model itself (a scorer-specific fast path bypasses any wrapping Scorer)"""
+        model = getattr(m._DEFAULT_SCORER, "_model", None)
+        if model is None or getattr(model, "_qv_patched", False):
+            return
+        env = self
+        real = model.predict_log_proba
+
+        def counting(X):
+            if env.nb_mode:
+                c = env.clock
+                for doc in X:
+                    c.tick()
+                    if c.passed:
+                        env.after["scorings"] += 1
+                        if all(tok.isdigit() for tok in doc):
+                            env.after["initial_scorings"] += 1
+            return real(X)
+
+        model.predict_log_proba = counting
+        model._qv_patched = True
+
+    nb_mode = False
+
     def run(self, mode, text, ts, depth, timeout, entry):
         """-> (stream observation or ctparse observation, stats, exception)"""
         cp, gen, m = lib()
+        self.nb_mode = mode.endswith("+nb")
+        mode = mode.replace("+nb", "")
         self.clock = VClock(mode)
         self.after = {"scorings": 0, "initial_scorings": 0, "rules": 0, "elements": set()}
         if timeout not in (0, HUGE):
             # start_time is the first read (value 1); _tt raises when read - 1 > timeout
             self.clock.deadline = 1 + timeout
-        sc = self.scorer(m._DEFAULT_SCORER)
+        if self.nb_mode:
+            self._patch_model(m)
+            sc = None  # the shipped scorer object itself: work is observed at the model
+        else:
+            sc = self.scorer(m._DEFAULT_SCORER)
         exc = None
         out = None
         try:
@@ -197,8 +227,10 @@ def plan(tier, seed):
     too_big = []
     budget = 25.0 if tier == "quick" else 1500.0  # CPU seconds per combination (N expiry points x cost of one run)
     for text in inputs:
-        for mode in ("reads", "ticks"):
+        for mode in ("reads", "ticks", "ticks+nb"):
             for depth in (10, 0):
+                if mode == "ticks+nb" and depth == 0:
+                    continue
                 if depth == 0 and len(text) > 20:
                     too_big.append("{}|{}|depth{}".format(text, mode, depth))  # not even measured: unlimited depth on a long input
                     continue
@@ -216,7 +248,7 @@ def plan(tier, seed):
 
     space = {
         "inputs": len(inputs),
-        "clock_models": ["reads", "ticks"],
+        "clock_models": ["reads", "ticks", "ticks+nb (shipped scorer object passed as is; rows counted at the model)"],
         "depths": [10, 0],
         "expiry_points_per_combination": {"{}|{}|depth{}".format(t, m, d): N + 1 for t, m, d, N in combos},
         "runs": sum(N + 2 for _, _, _, N in combos) * 2,
